@@ -103,6 +103,9 @@ func (s *vSelfEnd) StartRun() error {
 			case <-s.abortSelf:
 				close(s.nextBlock)
 				return
+			case <-s.endNow:
+				finish()
+				return
 			}
 		}
 	}()
@@ -898,7 +901,42 @@ func vRunControl(c *vCase) {
 		endAt = vRange(r, 2, nreq-2)
 	}
 	for i := 0; i < nreq && !k.dead; i++ {
-		if i == endAt {
+		if i == endAt && vChance(r, 0.4) {
+			// a request waits through a long block; while it waits the source ends itself, so that the core
+			// loop finds the request and the end of the source ready at the same time
+			m := k.mon
+			for len(m.held) > 0 {
+				<-m.held
+			}
+			atomic.StoreInt32(&m.holdWanted, 1)
+			select {
+			case <-m.held:
+				k.selfEnded = true
+				k.note("block held; a request is issued, 60 ms later the source ends itself (mode %d) and the block is released", k.self.mode)
+				go func() {
+					time.Sleep(60 * time.Millisecond)
+					close(k.self.endNow)
+					time.Sleep(2 * time.Millisecond)
+					select {
+					case m.release <- struct{}{}:
+					default:
+					}
+				}()
+				c.Cov("requests_pending_when_source_ends", 1)
+				switch r.Intn(3) {
+				case 0:
+					k.reqTriggers()
+				case 1:
+					k.reqGroupTrigger()
+				case 2:
+					k.reqWriteControl()
+				}
+				continue
+			case <-time.After(2 * time.Second):
+				atomic.StoreInt32(&m.holdWanted, 0)
+			}
+		}
+		if i == endAt && !k.selfEnded {
 			// the source ends itself now; requests keep arriving: immediately (racing) or a little later
 			close(k.self.endNow)
 			k.selfEnded = true
@@ -999,7 +1037,7 @@ func init() {
 			Assumptions: []string{"single client (one goroutine issuing requests)", "the fire-and-forget mode of SetExperimentStateLabel is excluded as the property says", "where the statement does not fix the reply (raw-block size 0, deleting a connection that cannot exist, reading a comment after self-termination) either reply is accepted",
 				"hangs are decided by wait-state analysis of two goroutine dumps 2 s apart after a 15 s watchdog, never by the clock alone"},
 			Guards: map[string]map[string]int{
-				"quick":    {"requests": 2500, "progress_checks": 1000, "requests_while_block_in_process": 100, "requests_after_self_termination": 150, "io_fault_comment": 5, "effects_run": 800, "source_triangle": 40, "source_lancero": 20, "source_selfend": 40, "source_erroring": 20, "writing_sessions": 60},
+				"quick":    {"requests": 2500, "progress_checks": 1000, "requests_while_block_in_process": 100, "requests_after_self_termination": 150, "requests_pending_when_source_ends": 8, "io_fault_comment": 5, "effects_run": 800, "source_triangle": 40, "source_lancero": 20, "source_selfend": 40, "source_erroring": 20, "writing_sessions": 60},
 				"thorough": {"requests": 30000, "requests_after_self_termination": 2000},
 			}},
 	})
